@@ -3,11 +3,12 @@ import z3
 
 from pyvc.contracts import Al, Bridge, LoopSpec, Q, contract, inline
 from pyvc.core import I, Ref, Sym, OptV
-from .lib import (DELAY, EOM_RISE, FALL, IS_DETUNED_DELAY, PULSE, RISE, TARGET, T, clock, cs_arr, cs_at,
+from .lib import (LOCAL, GLOBAL, DELAY, EOM_RISE, FALL, IS_DETUNED_DELAY, PULSE, RISE, TARGET, T, clock, cs_arr, cs_at,
                   cs_chan, cs_len, eb_at, eb_len, eb_tf_none, fget, fnone, in_eom, max_dur,
                   max_dur_none, min_dur, p_duration, s_kind, s_pulse, s_targets, s_tf, s_ti,
                   sch_dom, sch_get, sch_has, sch_map, sch_maxdur, sch_maxdur_none, valid_channel_f)
 
+from .lib import LPSI, lps_none, lpsi_def  # noqa: E402
 SF = "pulser-core/pulser/sequence/_schedule.py"
 LRT_HYPS = ("len>=0", "kinds", "monotone", "contiguous", "targets-change-only-at-target-slots", "retarget-after-fall")
 
@@ -38,8 +39,8 @@ def INVA(arr, n, ch, split=None, only=None):
                     pats=lambda k: [at(k)], split=sp)),
         ("contiguous", Q([I], lambda k: (z3.And(1 <= k, k < n), z3.And(s_ti(at(k)) == s_tf(at(k - 1)), s_ti(at(k)) <= s_tf(at(k)))),
                          pats=lambda k: [at(k)], split=sp)),
-        ("monotone", Q([I, I], lambda a, b: (z3.And(0 <= a, a <= b, b < n), s_tf(at(a)) <= s_tf(at(b))),
-                       pats=lambda a, b: [(at(a), at(b))], split=sp)),
+        ("monotone", Q([I, I], lambda b, a: (z3.And(0 <= a, a <= b, b < n), s_tf(at(a)) <= s_tf(at(b))),
+                       pats=lambda b, a: [(at(a), at(b))], split=sp)),
         ("boundaries-nonneg", Q([I], lambda k: (z3.And(0 <= k, k < n), s_tf(at(k)) >= 0), pats=lambda k: [at(k)], split=sp)),
         ("clock-aligned", Q([I], lambda k: (z3.And(0 <= k, k < n), Al(c, s_tf(at(k)))), pats=lambda k: [at(k)], split=sp)),
         ("pulse-occupies-its-duration", Q([I], lambda k: (z3.And(0 <= k, k < n, s_kind(at(k)) == PULSE),
@@ -56,6 +57,14 @@ def INVA(arr, n, ch, split=None, only=None):
             z3.And(1 <= t, t < n, s_kind(at(t)) == TARGET, 0 <= p, p < t, s_kind(at(p)) == PULSE, no_pulse_between(arr, p, t)),
             s_tf(at(p)) + FALL(s_pulse(at(p)), ch, z3.BoolVal(False)) <= s_ti(at(t))),
             pats=lambda t, p: [(at(t), at(p))], split=sp)),
+        ("retarget-interval", Q([I, I], lambda b, a: (
+            z3.And(0 <= a, a < b, b < n, s_kind(at(a)) == TARGET, s_kind(at(b)) == TARGET, fget("Channel", "addressing", ch) == LOCAL),
+            s_tf(at(b)) - s_tf(at(a)) >= fget("Channel", "min_retarget_interval", ch)),
+            pats=lambda b, a: [(at(a), at(b))], split=sp)),
+        ("fixed-retarget-time", Q([I], lambda b: (
+            z3.And(1 <= b, b < n, s_kind(at(b)) == TARGET, fget("Channel", "addressing", ch) == LOCAL),
+            s_tf(at(b)) - s_ti(at(b)) >= fget("Channel", "fixed_retarget_t", ch)),
+            pats=lambda b: [at(b)], split=sp)),
     ]
     if only:
         cl = [x for x in cl if x[0] in only]
@@ -147,6 +156,8 @@ def gd_post(h, cs, inc, res):
                    z3.ForAll([j], z3.Implies(z3.And(k < j, j < n), s_kind(at(j)) != PULSE), patterns=[at(j)])),
             res == z3.If(last_tf >= s_tf(at(k)) + fall(k), last_tf, s_tf(at(k)) + fall(k))),
             pats=lambda k: [at(k)])),
+        ("fall-of-most-recent-pulse-L", z3.Implies(z3.And(inc, n > 0, z3.Not(lps_none(cs_arr(h, cs), n, z3.BoolVal(False)))),
+                                                   (lambda L: res == z3.If(last_tf >= s_tf(at(L)) + fall(L), last_tf, s_tf(at(L)) + fall(L)))(LPSI(cs_arr(h, cs), n, z3.BoolVal(False))))),
         ("no-pulse", z3.Implies(z3.And(inc, n > 0, z3.ForAll([j], z3.Implies(z3.And(0 <= j, j < n), s_kind(at(j)) != PULSE), patterns=[at(j)])),
                                 res == last_tf)),
     ]
@@ -173,6 +184,7 @@ contract(SF, "_ChannelSchedule.get_duration", props=("C02", "C03", "C10"),
          requires=lambda c: INV(c.old, T(c.self), only=("len>=0", "monotone", "kinds", "boundaries-nonneg"))
          + EOMWF(c.old, T(c.self)) + [("valid_channel", valid_channel_f(cs_chan(T(c.self))))],
          ensures=lambda c: gd_post(c.old, T(c.self), T(c.include_fall_time), T(c.res)),
+         spec_defs=lambda c: [lpsi_def(cs_arr(c.old, T(c.self)), cs_len(c.old, T(c.self)), z3.BoolVal(False))],
          loops={0: LoopSpec(gd_loop_inv)},
          )
 
@@ -180,7 +192,7 @@ contract(SF, "_ChannelSchedule.get_duration", props=("C02", "C03", "C10"),
 # --------------------------------------------------------------------------
 # last_target / last_pulse_slot / _get_last_pulse_phase
 # --------------------------------------------------------------------------
-from .lib import LPSI, LTI, lps_match, lps_none, lpsi_def, lti_def, p_phase, sort_of  # noqa: E402
+from .lib import LTI, lps_match, lti_def, p_phase, sort_of  # noqa: E402
 from pyvc.core import B  # noqa: E402
 
 
@@ -320,6 +332,10 @@ def at_rest(c, cs, hnew):
     """the channel's end is past the most recent pulse's end + fall time (in the *old* EOM mode)."""
     n1 = cs_len(hnew, cs)
     ch = cs_chan(cs)
+    arr0, n0 = cs_arr(c.old, cs), cs_len(c.old, cs)
+    L = LPSI(arr0, n0, z3.BoolVal(False))
+    return z3.Implies(z3.Not(lps_none(arr0, n0, z3.BoolVal(False))),
+                      s_tf(cs_at(hnew, cs, n1 - 1)) >= s_tf(z3.Select(arr0, L)) + FALL(s_pulse(z3.Select(arr0, L)), ch, in_eom(c.old, cs)))
     return Q([I], lambda k: (most_recent_pulse(c.old, cs, k),
                              s_tf(cs_at(hnew, cs, n1 - 1)) >= s_tf(cs_at(c.old, cs, k)) + FALL(s_pulse(cs_at(c.old, cs, k)), ch, in_eom(c.old, cs))),
              pats=lambda k: [cs_at(c.old, cs, k)])
@@ -334,11 +350,13 @@ def wff_ensures(c):
         ("appends-at-most-one-delay", z3.Or(n1 == n0, z3.And(n1 == n0 + 1, z3.Or(s_kind(new) == DELAY, z3.And(s_kind(new) == PULSE, IS_DETUNED_DELAY(s_pulse(new)))),
                                                            s_targets(new) == s_targets(cs_at(c.old, cs, n0 - 1))))),
         ("at-rest", at_rest(c, cs, c.new)),
+        ("plain-delay-outside-eom", z3.Implies(z3.And(n1 == n0 + 1, z3.Not(in_eom(c.old, cs))), s_kind(new) == DELAY)),
         ("within-max-sequence-duration", MAXD(c.new, T(c.self), cs)),
     ] + prefix(c, cs) + [(f"INV.{nm}", cl) for nm, cl in INV(c.new, cs)]
 
 
 contract(SF, "_Schedule.wait_for_fall", props=("C02", "C10", "C15"),
+         spec_defs=lambda c: [lpsi_def(cs_arr(c.old, S(c)), cs_len(c.old, S(c)), z3.BoolVal(False))],
          params={"self": ("ref", "_Schedule"), "channel": "str"},
          requires=writer_requires,
          ensures=wff_ensures,
@@ -566,9 +584,10 @@ NO_DELAY = str_const("no-delay")
 
 def mnps_requires(c):
     cs = S(c)
-    return fad_requires(c)[:2] + fad_requires(c)[3:] + INV(c.old, cs, only=("len>=0", "monotone", "kinds", "contiguous")) + [
+    return fad_requires(c)[:2] + fad_requires(c)[3:] + INV(c.old, cs, only=("len>=0", "monotone", "kinds", "contiguous", "clock-aligned")) + [
         ("valid_channel", valid_channel_f(cs_chan(cs)))] + EOMWF(c.old, cs) + [
-        ("valid-pulse", valid_pulse(T(c.pulse)))]
+        ("valid-pulse", valid_pulse(T(c.pulse))),
+        ("pulse-duration-aligned", Al(clock(cs_chan(cs)), p_duration(T(c.pulse))))]
 
 
 def seq_all(sv, f):
@@ -616,6 +635,8 @@ def mnps_ensures(c):
         ("after-phase-barriers", seq_all(bts, lambda b: ti >= b)),
         ("delay-is-zero-or-valid", z3.Or(D == 0, z3.And(D >= m, z3.Or(max_dur_none(ch), D <= max_dur(ch))))),
         ("delay-is-clock-multiple", Al(cc, D)),
+        ("starts-on-clock", Al(cc, ti)),
+        ("ends-on-clock", Al(cc, tf)),
         ("no-delay-starts-at-end-or-barrier", z3.Implies(nodelay, z3.Or(
             ti == t0, seq_some(bts, lambda b: ti == b),
             z3.And(D > 0, z3.Or(low < t0 + m, seq_some(bts, lambda b: low < z3.If(b >= t0 + m, b, t0 + m))))))),
@@ -646,4 +667,95 @@ contract(SF, "_Schedule.make_next_pulse_slot", props=("C03", "C10", "C07", "C01"
          raises={"ValueError": ("only-if", lambda c: z3.Or(cs_len(c.old, S(c)) == 0, z3.Not(max_dur_none(cs_chan(S(c)))))),
                  "RuntimeError": ("only-if", lambda c: z3.And(T(c.block_over_max_duration), z3.Not(sch_maxdur_none(T(c.self))))),
                  },
+         )
+
+
+# --------------------------------------------------------------------------
+# add_pulse
+# --------------------------------------------------------------------------
+def VALIDATED(p, ch):
+    """ghost: pulse p satisfies LIMITS of channel ch (produced by Sequence._validate_and_adjust_pulse / internal detuned delays)."""
+    return uf("VALIDATED", Ref, Ref, z3.BoolSort())(p, ch)
+
+
+def add_pulse_requires(c):
+    cs = S(c)
+    return writer_requires(c) + fad_requires(c)[3:] + [("valid-pulse", valid_pulse(T(c.pulse))),
+                                                       ("pulse-duration-aligned", Al(clock(cs_chan(cs)), p_duration(T(c.pulse)))),
+                                                       ("pulse-duration-valid", z3.And(p_duration(T(c.pulse)) >= min_dur(cs_chan(cs))))]
+
+
+def add_pulse_ensures(c):
+    h, sch, chan, prot, T0 = fad_ctx(c)
+    cs = S(c)
+    ch = cs_chan(cs)
+    n0, n1 = cs_len(c.old, cs), cs_len(c.new, cs)
+    last = cs_at(c.old, cs, n0 - 1)
+    new = cs_at(c.new, cs, n1 - 1)
+    gap = cs_at(c.new, cs, n0)
+    t0 = s_tf(last)
+    nodelay = prot == NO_DELAY
+    return [
+        ("appends-pulse-after-optional-delay", z3.Or(n1 == n0 + 1, z3.And(n1 == n0 + 2, s_ti(gap) == t0, s_tf(gap) == s_ti(new),
+                                                                          z3.Or(s_kind(gap) == DELAY, z3.And(s_kind(gap) == PULSE, IS_DETUNED_DELAY(s_pulse(gap))))))),
+        ("pulse-slot", z3.And(s_kind(new) == PULSE, s_tf(new) == s_ti(new) + p_duration(T(c.pulse)), s_targets(new) == s_targets(last),
+                              p_duration(s_pulse(new)) == p_duration(T(c.pulse)), z3.Implies(c.phase_drift_params.none, s_pulse(new) == T(c.pulse)))),
+        ("no-gap", z3.Implies(n1 == n0 + 1, s_ti(new) == t0)),
+        ("after-phase-barriers", seq_all(c.phase_barrier_ts, lambda b: s_ti(new) >= b)),
+        ("no-conflict", Q([PStr, I], lambda kk, k: (z3.And(z3.Not(nodelay), sch_has(h, sch, kk), kk != chan, most_recent_conflicting(h, sch_get(h, sch, kk), k, T0, prot)),
+                                                  s_ti(new) >= s_tf(cs_at(h, sch_get(h, sch, kk), k)) + fall_min(h, sch_get(h, sch, kk), cs_at(h, sch_get(h, sch, kk), k))),
+                          pats=lambda kk, k: [cs_at(h, sch_get(h, sch, kk), k)])),
+        ("within-max-sequence-duration", MAXD(c.new, T(c.self), cs)),
+    ] + prefix(c, cs) + [(f"INV.{nm}", cl) for nm, cl in INV(c.new, cs, split=[n1 - 1])]
+
+
+contract(SF, "_Schedule.add_pulse", props=("C01", "C02", "C03", "C07", "C09", "C10"),
+         params={"self": ("ref", "_Schedule"), "pulse": ("ref", "Pulse"), "channel": "str", "phase_barrier_ts": ("list", "int"),
+                 "protocol": "str", "phase_drift_params": ("opt", ("ref", "_PhaseDriftParams"))},
+         requires=add_pulse_requires,
+         ensures=add_pulse_ensures,
+         raises={"ValueError": ("only-if", lambda c: z3.Or(cs_len(c.old, S(c)) == 0, z3.Not(max_dur_none(cs_chan(S(c)))))),
+                 "RuntimeError": ("only-if", lambda c: z3.Not(sch_maxdur_none(T(c.self))))},
+         modifies={SLOTS: lambda c: [S(c)]},
+         exc_safe=True,
+         )
+
+
+# --------------------------------------------------------------------------
+# add_target (C10, C02)
+# --------------------------------------------------------------------------
+def add_target_requires(c):
+    cs = S(c)
+    return writer_requires(c) + [
+        ("retarget-only-on-local-outside-eom", z3.Implies(cs_len(c.old, cs) >= 1,
+                                                          z3.And(fget("Channel", "addressing", cs_chan(cs)) == LOCAL, z3.Not(in_eom(c.old, cs)))))]
+
+
+def add_target_ensures(c):
+    cs = S(c)
+    ch = cs_chan(cs)
+    n0, n1 = cs_len(c.old, cs), cs_len(c.new, cs)
+    qs = T(c.qubits_set)
+    new = cs_at(c.new, cs, n1 - 1)
+    last_old = cs_at(c.old, cs, n0 - 1)
+    same = s_targets(last_old) == qs
+    is_new_target = z3.And(s_kind(new) == TARGET, s_targets(new) == qs)
+    return [
+        ("first-target", z3.Implies(n0 == 0, z3.And(n1 == 1, is_new_target, s_ti(new) == -1, s_tf(new) == 0))),
+        ("retarget-appends-target-slot", z3.Implies(z3.And(n0 >= 1, z3.Not(same)),
+                                                    z3.And(n1 >= n0 + 1, n1 <= n0 + 2, is_new_target, s_ti(new) == s_tf(cs_at(c.new, cs, n1 - 2))))),
+        ("same-targets-inserts-nothing", z3.Implies(z3.And(n0 >= 1, same), n1 == n0)),
+        ("same-targets-adds-no-target-slot", z3.Implies(z3.And(n0 >= 1, same), z3.And(n1 <= n0 + 1, z3.Implies(n1 == n0 + 1, s_kind(new) != TARGET)))),
+        ("within-max-sequence-duration", MAXD(c.new, T(c.self), cs)),
+    ] + prefix(c, cs) + [(f"INV.{nm}", cl) for nm, cl in INV(c.new, cs, split=[n1 - 1])]
+
+
+contract(SF, "_Schedule.add_target", props=("C02", "C10", "C09"),
+         params={"self": ("ref", "_Schedule"), "qubits_set": "qset", "channel": "str"},
+         requires=add_target_requires,
+         ensures=add_target_ensures,
+         raises={"ValueError": ("only-if", lambda c: z3.Not(max_dur_none(cs_chan(S(c))))),
+                 "RuntimeError": ("only-if", lambda c: z3.Not(sch_maxdur_none(T(c.self))))},
+         modifies={SLOTS: lambda c: [S(c)]},
+         exc_safe=True,
          )
